@@ -37,6 +37,8 @@ pub struct Observed {
     pub counters: BTreeMap<&'static str, u64>,
     pub faults_fired: u64,
     pub alloc_count: u32,
+    /// (writes to, reads from) regular files
+    pub file_io: (u32, u32),
     /// message of a panic caught during the run
     pub panic: Option<String>,
 }
@@ -99,6 +101,7 @@ pub fn run_script_with(
         decisions: w.sim.decisions(),
         faults_fired: fault_count(&counters),
         alloc_count: w.sim.ctl.alloc_count(),
+        file_io: w.sim.ctl.file_io_counts(),
         counters,
         ..Default::default()
     };
